@@ -493,6 +493,51 @@ def progOK : Nat → List PStep → Bool
   | n, .select idx :: p => idx.all (· < n) && progOK idx.length p
   | n, _ :: p => progOK n p
 
+/-! several tables alive at once: selections keep their parents; writing one compacts only that one -/
+
+inductive TStep where
+  | sel (src : Nat) (idx : List Nat)   -- tables.append(tables[src][item])
+  | write (i : Nat)                    -- f.write(tables[i])  (compacts tables[i] in place)
+  | fields (i : Nat)                   -- read all fields of tables[i]
+
+def runTree (names : List Bytes) : List Ext → List TStep → List POut
+  | _, [] => []
+  | ts, .sel src idx :: p =>
+    match ts[src]? with
+    | some e => runTree names (ts ++ [e.getitem idx]) p
+    | none => runTree names ts p
+  | ts, .write i :: p =>
+    match ts[i]? with
+    | some e => (.written e.compact.data) :: runTree names (ts.set i e.compact) p
+    | none => runTree names ts p
+  | ts, .fields i :: p =>
+    match ts[i]? with
+    | some e => (.read (e.records names)) :: runTree names ts p
+    | none => runTree names ts p
+
+def specTree (names : List Bytes) : List (List Rec) → List TStep → List POut
+  | _, [] => []
+  | cs, .sel src idx :: p =>
+    match cs[src]? with
+    | some c => specTree names (cs ++ [idx.filterMap (c[·]?)]) p
+    | none => specTree names cs p
+  | cs, .write i :: p =>
+    match cs[i]? with
+    | some c => (.written (encodeAll c)) :: specTree names cs p
+    | none => specTree names cs p
+  | cs, .fields i :: p =>
+    match cs[i]? with
+    | some c => (.read (c.map (view names))) :: specTree names cs p
+    | none => specTree names cs p
+
+/-- every step names an existing table and every selection positions that exist in it (`lens` = current table sizes) -/
+def treeOK : List Nat → List TStep → Bool
+  | _, [] => true
+  | lens, .sel src idx :: p =>
+    (match lens[src]? with | some n => idx.all (· < n) | none => false) && treeOK (lens ++ [idx.length]) p
+  | lens, .write i :: p => decide (i < lens.length) && treeOK lens p
+  | lens, .fields i :: p => decide (i < lens.length) && treeOK lens p
+
 /-! probe used to tie the fixed offsets to the running code (see Gen/C16.lean): one record with
 `l_read_name = 1`, everything else zero, `pad` zero bytes of payload; byte `o` incremented -/
 def probeTemplate (pad : Nat) (o : Nat) : Bytes :=
